@@ -175,7 +175,7 @@ def ok_bun(W, bun):
                 X.minv(OW.naive_matrix(W, n))      # merged diagonals must not acquire zero entries either
             except X.Singular:
                 return False
-        if n["op"] == "scaling" and X.g(n["c"]) == X.ZERO:
+        if n["op"] in ("scaling", "scale") and X.g(n["c"]) == X.ZERO:
             return False
         if n["op"] == "diag" and any(X.g(v) == X.ZERO for v in n["v"]):
             return False
